@@ -13,7 +13,7 @@ from harness.props.c19_common import Unit, big, crosscheck, peak_dt, zl
 
 NAME = "find_peaks"
 RULE = ("find_peaks: exhaustive over 1..3 (thorough 4) hits with start deltas {0,1,3,4}, lengths {1,3}, 2 channels, "
-        "swept over gap {3,4}, extensions {(0,0),(1,1)}, min_area {0,2}, min_channels {1,2}, max_duration {4,8,1000} (every fourth parameter set for 3 hits in the quick tier); "
+        "swept over gap {3,4}, extensions {(0,0),(1,1)}, min_area {0,2}, min_channels {1,2}, max_duration {4,8,1000} (every sixth parameter set for 3 hits in the quick tier); "
         "plus seeded random hit sets of 1..12 hits in 1..4 channels (peak dtype with 2..4 channels) with dt in {1,2,5} (5% mixed dt), areas -1..3, "
         "gains {1,2,4}, zero-length hits, hits at gap-1/gap/gap+1, small max_duration, and ~3% precondition-violating "
         "parameter sets; non-trivial = >= 2 clusters of which one has >= 2 hits; distinct by canonical JSON.")
@@ -179,10 +179,10 @@ def gen_cases(ctx):
             for i, (d, l, c) in enumerate(combo):
                 t = t + (d if i else 0)
                 hits.append((t, l, 1, c, 1))
-            for prm in (sweeps if n <= 2 or big(ctx) else sweeps[::4]):
+            for prm in (sweeps if n <= 2 or big(ctx) else sweeps[::6]):
                 cases.append((prm, [1, 1], 2, hits))
     r = ctx.rng
-    for _ in range(200000 if ctx.thorough else 10000):
+    for _ in range(200000 if ctx.thorough else 8000):
         nch = r.randint(2, 4)      # strax.peak_dtype needs at least 2 channels
         nused = r.randint(1, nch)  # the hits occupy 1..nch of them
         n = r.randint(1, 12)
